@@ -243,8 +243,60 @@ def extract(repo=None):
     unknown = sorted(set(unknown))
 
     res = {'expr_table': expr_table, 'base_ok': base_ok, 'f_attrs': f_attrs, 'unknown_reads': unknown, 'problems': problems}
+    res['modname'] = extract_modname(fns)
     res['probe'] = probe(res)
     return res
+
+
+CRYPTO_BITS = {'md5': 128, 'sha1': 160, 'sha224': 224, 'sha256': 256, 'sha384': 384, 'sha512': 512, 'sha3_224': 224, 'sha3_256': 256,
+               'sha3_384': 384, 'sha3_512': 512, 'blake2b': 512, 'blake2s': 256}
+
+
+def extract_modname(fns):
+    """how compile.compile_cython_module names the on-disk module: {'expr', 'alg', 'bits', 'full_source', 'used'}.
+    Understood: 'mod' + hashlib.<alg>(src.encode()).hexdigest([n]) [optionally sliced [:k]]."""
+    out = {'expr': None, 'alg': 'unknown', 'bits': 0, 'full_source': False, 'used': False}
+    fn = fns.get('compile_cython_module')
+    if fn is None:
+        return out
+    val = None
+    for n in ast.walk(fn):
+        if isinstance(n, ast.Assign) and _src(n.targets[0]) == 'modname':
+            val = n.value
+    if val is None:
+        return out
+    out['expr'] = _src(val)
+    text = _src(fn)
+    out['used'] = ('importlib.import_module(modname)' in text and '_compile_cython_module_nocache(src, modname' in text)
+    # 'mod' + <digest>
+    d = val
+    if isinstance(d, ast.BinOp) and isinstance(d.op, ast.Add) and isinstance(d.left, ast.Constant) and isinstance(d.left.value, str):
+        d = d.right
+    else:
+        return out
+    slice_hex = None
+    if isinstance(d, ast.Subscript) and isinstance(d.slice, ast.Slice) and d.slice.lower is None and isinstance(d.slice.upper, ast.Constant):
+        slice_hex = int(d.slice.upper.value)
+        d = d.value
+    if not (isinstance(d, ast.Call) and isinstance(d.func, ast.Attribute) and d.func.attr == 'hexdigest'):
+        return out
+    hexarg = d.args[0].value if d.args and isinstance(d.args[0], ast.Constant) else None
+    h = d.func.value
+    if not (isinstance(h, ast.Call) and isinstance(h.func, ast.Attribute) and _src(h.func.value) == 'hashlib'):
+        return out
+    alg = h.func.attr
+    out['full_source'] = [_src(a) for a in h.args] in (['src.encode()'], ["src.encode('utf-8')"], ["src.encode('utf8')"])
+    if alg in ('shake_128', 'shake_256') and isinstance(hexarg, int):
+        bits = 8 * hexarg
+    elif alg in CRYPTO_BITS and hexarg is None:
+        bits = CRYPTO_BITS[alg]
+    else:
+        return out
+    if slice_hex is not None:
+        bits = min(bits, 4 * slice_hex)
+    out['alg'] = alg
+    out['bits'] = bits
+    return out
 
 
 # ----------------------------------------------------------------------------- probing
@@ -383,11 +435,20 @@ def lean_text(res):
         '/-- disagreements between the ast extraction and the probing of live instances -/',
         'def extractionMismatches : List String := [%s]' % ', '.join('"%s"' % m.replace('"', "'") for m in (pr['mismatch'] + res['problems'])),
         '',
+        '/-- how `compile_cython_module` names the on-disk module (ast of compile.py): `%s` -/' % str(res['modname']['expr']).replace('-/', '- /'),
+        'def modnameAlg : String := "%s"' % res['modname']['alg'],
+        'def modnameBits : Nat := %d' % res['modname']['bits'],
+        'def modnameOfFullSource : Bool := %s' % ('true' if (res['modname']['full_source'] and res['modname']['used']) else 'false'),
+        'def cryptographicDigests : List String :=',
+        '  ["shake_128", "shake_256", "md5", "sha1", "sha224", "sha256", "sha384", "sha512", "sha3_224", "sha3_256", "sha3_384", "sha3_512", "blake2b", "blake2s"]',
+        '',
         'theorem keyTable_complete : KeyTableComplete keyTable = true := by decide',
         'theorem fkeyTable_complete : FKeyTableComplete fkeyTable = true := by decide',
         'theorem base_hash_ok : baseHashHasTypeShapeChildren = true := by decide',
         'theorem codegen_reads_known : unknownCodegenReads = [] := by decide',
         'theorem extraction_consistent : extractionMismatches = [] := by decide',
+        '/-- the module name is a cryptographic digest of at least 64 bits of the *whole* generated source -/',
+        'theorem modname_digest_ok : (cryptographicDigests.contains modnameAlg && decide (64 ≤ modnameBits) && modnameOfFullSource) = true := by decide',
         '',
         'end Pyiga.Gen.HashKeys',
         '',
